@@ -11,6 +11,7 @@ CP2KEngine (:py:class:`.CP2KEngine`)
 
 from __future__ import annotations
 
+import contextlib
 import logging
 import os
 import shlex
@@ -31,7 +32,10 @@ from typing import (
 
 import numpy as np
 
-from infretis.classes.engines.enginebase import EngineBase
+from infretis.classes.engines.enginebase import (
+    EngineBase,
+    terminate_process,
+)
 from infretis.classes.engines.engineparts import (
     PERIODIC_TABLE,
     ReadAndProcessOnTheFly,
@@ -865,7 +869,9 @@ class CP2KEngine(EngineBase):
         return_code = None
         cp2k_was_terminated = False
 
-        with open(out_name, "wb") as fout, open(err_name, "wb") as ferr:
+        with open(out_name, "wb") as fout, open(
+            err_name, "wb"
+        ) as ferr, contextlib.ExitStack() as cleanup:
             exe = subprocess.Popen(
                 cmd,
                 stdin=subprocess.PIPE,
@@ -875,6 +881,8 @@ class CP2KEngine(EngineBase):
                 cwd=cwd,
                 preexec_fn=os.setsid,
             )
+            # do not leave the program running if an exception ends this block
+            cleanup.callback(terminate_process, exe)
             # wait for trajectories to appear
             while not os.path.exists(out_files["pos"]) or not os.path.exists(
                 out_files["vel"]
